@@ -20,7 +20,7 @@ COMPONENTS = {'real': ['lib/lpc/program/binaries.c (save_binary, load_binary, ch
                        'src/simulate.c load_object', 'lib/efuns dump_prog/functions/variables/inherit_list', 'src/backend.c + comm.c'],
               'stub': ['kernel sockets/clock/timer (simulated)', 'file layer: pass-through with simulated modification times that survive restarts'],
               'hook': []}
-ASSUMPTIONS = ['a binary is stale when its own source, one of its (transitively) included files, the source of a (transitively) inherited program, or - after a restart - the simul_efun file has a strictly later modification time; edits of files included by an inherited program are judged by behaviour only',
+ASSUMPTIONS = ['a binary is stale when its own source, one of its (transitively) included files, the source or an included file of a (transitively) inherited program, or - after a restart - the simul_efun file has a strictly later modification time',
                'every edit happens at least two simulated seconds after the previous compile (modification times have one-second resolution)',
                'a change of the driver bytecode format cannot be simulated (one binary of the driver)',
                'torn .b files are not injected']
@@ -97,6 +97,32 @@ def insert_marker(w, rng):
     return file
 
 
+def insert_global(w, rng, n):
+    """edit: one more global variable in front of a program's own variables (shifts the variable layout of everything that inherits it)"""
+    progs = [x for x in PROGS if x in w.order]
+    # a .c file (in front of its own variables) or a header that holds whole function definitions (file scope)
+    cands = [('g/%s.c' % x, 'int g%s;' % x) for x in progs]
+    for name, em in w.files.items():
+        if name.endswith('.h') and any(re.match(r'int \w+\(\) \{', l) for l in em.lines): cands.append((name, None))
+    file, key = rng.choice(cands)
+    lines = w.files[file].lines
+    if key: L = next((i for i, l in enumerate(lines) if l.startswith(key)), None)
+    else: L = next((i for i, l in enumerate(lines) if re.match(r'int \w+\(\) \{', l)), None)
+    if L is None: return None
+    L += 1                                  # 1-based number of the line that moves down
+    for o in _all_line_owners(w):
+        if o.file != file: continue
+        if o.lo >= L:
+            o.lo += 1; o.hi += 1; o.end = getattr(o, 'end', o.hi) + 1
+    lines.insert(L - 1, 'int xv%d = %d;' % (n, 100 + n))
+    return file
+
+
+def _twin(text):
+    """the same program without the pragma (same line numbers): always compiled from source"""
+    return text.replace('#pragma save_binary', '// no saved binary for the twin', 1)
+
+
 def gen(rng, tier, i):
     w = None
     for _ in range(30):
@@ -116,6 +142,7 @@ def gen(rng, tier, i):
     p.opt('fs_log', 1)
     p.opt('max_instr', 100000000)
     for name, em in sorted(w.files.items()): p.file(name, em.text())
+    p.file('g/m2.c', _twin(w.files['g/m.c'].text()))
     progs = [x for x in PROGS if x in w.order]
     phases = []
     def load_phase():
@@ -131,7 +158,9 @@ def gen(rng, tier, i):
         for x in order:
             ph['load_cycles'][x] = p.cycle(send(0, 'do call /g/%s warm\r\n' % x))
         ph['pinfo_cycle'] = p.cycle(send(0, 'do ' + ';'.join('pinfo /g/%s' % x for x in progs) + '\r\n'))
-        ph['run_cycle'] = p.cycle(send(0, 'do call /g/m main\r\n'))
+        ph['run_cycle'] = p.cycle(send(0, 'do xco r /g/m main\r\n'))
+        # the twin: same text, never loaded from a binary, run against freshly loaded helpers
+        ph['twin_cycle'] = p.cycle(send(0, 'do dest /g/o;dest /g/m2;%sxco r2 /g/m2 main\r\n' % ('call /g/o warm;' if 'o' in progs else '')))
         phases.append(ph)
     load_phase.need_connect = True
     load_phase()
@@ -142,11 +171,12 @@ def gen(rng, tier, i):
         r = rng.random()
         restart = False
         if r < 0.45:
-            f = insert_marker(w, rng)
+            f = insert_marker(w, rng) if rng.random() < 0.65 else insert_global(w, rng, k)
             if f:
                 try: w.run()
                 except OverflowError: pass
                 p.cycle('writefile %s %s' % (f, enc(w.files[f].text())))
+                if f == 'g/m.c': p.cycles[-1].append('writefile g/m2.c %s' % enc(_twin(w.files[f].text())))
         elif r < 0.65:
             f = rng.choice(sorted(w.files))
             p.cycle('touch %s' % f)
@@ -233,7 +263,7 @@ def check(plan, res):
                         bad('stale', 'program g/%s was loaded from a binary that the log never saw written' % y, 'binary/unknown-origin'); continue
                     newer = []
                     for z in chain(y):
-                        for f in ph['deps'].get(z, ['g/%s.c' % z]) if z == y else ['g/%s.c' % z]:
+                        for f in ph['deps'].get(z, ['g/%s.c' % z]):
                             if before.get(f, OLD) > bt: newer.append((f, before.get(f, OLD)))
                     # simul_efun touched in an earlier life after the binary was written
                     for (l2, c2) in touched_simul:
@@ -265,6 +295,15 @@ def check(plan, res):
             bad('behaviour', 'load or run failed (%s): %s' % (how, errs[0][:200]), 'behaviour/error-' + ('with-binary' if 'binary' in used.values() else 'source-only'))
         elif events(ph['run_cycle']) and got != want:
             bad('behaviour', 'main() ran %r, the current source says %r (%s)' % (got[:30], want[:30], how), 'behaviour/markers-' + ('with-binary' if 'binary' in used.values() else 'source-only'))
+        # the twin (same text, compiled from source) must run the same statements and return the same value
+        tw = events(ph.get('twin_cycle'))
+        if tw and events(ph['run_cycle']):
+            got2 = [int(e.rest.split(' ')[1]) for e in tw if e.kind == 'R' and e.rest.startswith('M ')]
+            r1 = [e.rest for e in events(ph['run_cycle']) if e.kind == 'R' and e.rest.startswith('XR r ')]
+            r2 = [e.rest.replace('XR r2 ', 'XR r ') for e in tw if e.kind == 'R' and e.rest.startswith('XR r2 ')]
+            if not exp_nat and (got2 != got or r1 != r2):
+                bad('behaviour', 'main() of g/m (%s) ran %r and returned %s; its twin compiled from the same source ran %r and returned %s' % (how, got[:25], r1, got2[:25], r2),
+                    'behaviour/twin-differs-' + ('with-binary' if 'binary' in used.values() else 'source-only'))
         # structure: a binary-loaded program is described exactly like the last source compile of the same text
         for e in events(ph['pinfo_cycle']):
             if e.kind != 'R' or not e.rest.startswith('PINFO '): continue
